@@ -54,11 +54,6 @@ theorem C18_counterexample_long_key :
       .getObject bka (List.replicate 200 76) none, .listObjectsV2 bka none none none none]).2 =
       [.ok, .err .KeyTooLongError, .err .NoSuchKey, .listed [] 0 false []] := by decide
 
-/-- fs:complete-requires-consecutive-parts -/
-theorem C18_counterexample_complete_requires_consecutive :
-    Differs [.createBucket bka, .createMultipartUpload alice bka kA none, .uploadPart alice bka kA (some 1) 2 [1],
-      .completeMultipartUpload alice bka kA (some 1) (some [some 2])] := by decide
-
 /-! ## repaired: histories that were counterexamples before the repairs and on which the model now agrees with the store
 
 (1d0f501 put_object / create_multipart_upload require the bucket; b01fec8 put_object without metadata removes the old
@@ -75,6 +70,8 @@ b29f222 complete_multipart_upload into a bucket that no longer exists is `NoSuch
 c55c267 delete_objects reports every requested key as deleted and accepts a key named twice;
 764f144 list_parts returns the parts in ascending part-number order;
 41e1cf2 an upload exists only under the bucket and key it was created for: `NoSuchUpload` under any other;
+fa59617 complete_multipart_upload accepts any strictly ascending part numbers (gaps allowed);
+a00e4e8 complete_multipart_upload validates the part list with the store's codes in the store's order (`MalformedXML`, `InvalidPartOrder`, `InvalidPart`, `EntityTooSmall`);
 b89afe2 ranged reads: covered for all ranges by `C18_get_refines_partial` and `C18_range_check`, the kernel cannot
 evaluate the decimal formatter of `Content-Range`) -/
 
@@ -425,5 +422,56 @@ theorem C18_fixed_suffix_ranges :
 
 /-- the unrestricted statement is false of the model (hence, by the correspondence runs, of the backend) -/
 theorem C18_full_false : ¬ C18_full := refutes C18_counterexample_key_normalised
+
+/-- was fs:complete-requires-consecutive-parts (the witness history of `corpus/fs.txt`: only part 2 uploaded, `2` listed; then
+    continued): the complete succeeds on both sides and the object is that part; of the parts 2, 5, 9 the list `5, 9` — whose
+    first part is small — is `EntityTooSmall` on both sides (the size rule looks at the position in the list, not at the
+    part number), the list `2, 7` `InvalidPart`, and the upload stays until the list `5` completes it -/
+theorem C18_fixed_complete_gapped_parts :
+    Same [.createBucket bka, .createMultipartUpload alice bka kA none, .uploadPart alice bka kA (some 1) 2 [1],
+      .completeMultipartUpload alice bka kA (some 1) (some [some 2]), .getObject bka kA none] ∧
+    (run H0 0 {} [.createBucket bka, .createMultipartUpload alice bka kA none, .uploadPart alice bka kA (some 1) 2 [1],
+      .completeMultipartUpload alice bka kA (some 1) (some [some 2]), .getObject bka kA none]).2.drop 3 =
+      [.completed (some (etagOf H0 [1])), .get [1] 1 none (some (etagOf H0 [1])) [] {}] ∧
+    Same [.createBucket bka, .createMultipartUpload alice bka kA none, .uploadPart alice bka kA (some 1) 9 [9],
+      .uploadPart alice bka kA (some 1) 2 [2], .uploadPart alice bka kA (some 1) 5 [5, 5],
+      .completeMultipartUpload alice bka kA (some 1) (some [some 5, some 9]),
+      .completeMultipartUpload alice bka kA (some 1) (some [some 2, some 7]),
+      .completeMultipartUpload alice bka kA (some 1) (some [some 5]), .getObject bka kA none,
+      .listParts alice bka kA (some 1)] ∧
+    (run H0 0 {} [.createBucket bka, .createMultipartUpload alice bka kA none, .uploadPart alice bka kA (some 1) 9 [9],
+      .uploadPart alice bka kA (some 1) 2 [2], .uploadPart alice bka kA (some 1) 5 [5, 5],
+      .completeMultipartUpload alice bka kA (some 1) (some [some 5, some 9]),
+      .completeMultipartUpload alice bka kA (some 1) (some [some 2, some 7]),
+      .completeMultipartUpload alice bka kA (some 1) (some [some 5]), .getObject bka kA none,
+      .listParts alice bka kA (some 1)]).2.drop 5 =
+      [.err .EntityTooSmall, .err .InvalidPart, .completed (some (etagOf H0 [5, 5])),
+       .get [5, 5] 2 none (some (etagOf H0 [5, 5])) [] {}, .err .NoSuchUpload] := by decide
+
+/-- was fs:complete-part-list-validation (the witness history of `corpus/fs.txt`: an empty part list; then continued): an
+    empty part list and no part list are `MalformedXML` on both sides — no empty object is created (the key does not exist
+    afterwards) and the upload stays —, as is a part without a number; numbers that are not strictly ascending are
+    `InvalidPartOrder` — before the part files are looked at: `3, 1` with part 3 never uploaded —, a part that was never
+    uploaded `InvalidPart`; then the upload completes -/
+theorem C18_fixed_complete_part_list_validation :
+    Same [.createBucket bka, .createMultipartUpload alice bka kA none, .uploadPart alice bka kA (some 1) 1 [1],
+      .completeMultipartUpload alice bka kA (some 1) (some []), .getObject bka kA none,
+      .completeMultipartUpload alice bka kA (some 1) none, .completeMultipartUpload bob bka kA (some 1) (some []),
+      .completeMultipartUpload alice bka kA (some 1) (some [none]),
+      .completeMultipartUpload alice bka kA (some 1) (some [some 1, some 1]),
+      .completeMultipartUpload alice bka kA (some 1) (some [some 3, some 1]),
+      .completeMultipartUpload alice bka kA (some 1) (some [some 1, some 3]),
+      .completeMultipartUpload alice bka kA (some 1) (some [some 1]), .getObject bka kA none] ∧
+    (run H0 0 {} [.createBucket bka, .createMultipartUpload alice bka kA none, .uploadPart alice bka kA (some 1) 1 [1],
+      .completeMultipartUpload alice bka kA (some 1) (some []), .getObject bka kA none,
+      .completeMultipartUpload alice bka kA (some 1) none, .completeMultipartUpload bob bka kA (some 1) (some []),
+      .completeMultipartUpload alice bka kA (some 1) (some [none]),
+      .completeMultipartUpload alice bka kA (some 1) (some [some 1, some 1]),
+      .completeMultipartUpload alice bka kA (some 1) (some [some 3, some 1]),
+      .completeMultipartUpload alice bka kA (some 1) (some [some 1, some 3]),
+      .completeMultipartUpload alice bka kA (some 1) (some [some 1]), .getObject bka kA none]).2.drop 3 =
+      [.err .MalformedXML, .err .NoSuchKey, .err .MalformedXML, .err .MalformedXML, .err .MalformedXML,
+       .err .InvalidPartOrder, .err .InvalidPartOrder, .err .InvalidPart, .completed (some (etagOf H0 [1])),
+       .get [1] 1 none (some (etagOf H0 [1])) [] {}] := by decide
 
 end S3V.C18
